@@ -602,13 +602,31 @@ func ruleRegistryDir(c *Ctx, rule string) {
 			continue
 		}
 		var called []string
-		eachInstr(fn, func(ins ssa.Instruction) {
-			if ci, ok := ins.(ssa.CallInstruction); ok {
-				if f := ci.Common().StaticCallee(); f != nil && f.Pkg != nil && f.Pkg.Pkg.Path() == modPath+"/registry" {
-					called = append(called, f.Name())
-				}
+		// the function and the helpers split out of it (not the other conversion functions)
+		seenFn := map[*ssa.Function]bool{}
+		var scan func(g *ssa.Function, depth int)
+		scan = func(g *ssa.Function, depth int) {
+			if seenFn[g] {
+				return
 			}
-		})
+			seenFn[g] = true
+			eachInstr(g, func(ins ssa.Instruction) {
+				ci, ok := ins.(ssa.CallInstruction)
+				if !ok {
+					return
+				}
+				f := ci.Common().StaticCallee()
+				if f == nil || f.Pkg == nil {
+					return
+				}
+				if f.Pkg.Pkg.Path() == modPath+"/registry" {
+					called = append(called, f.Name())
+				} else if f.Pkg.Pkg.Path() == modPath && depth < 2 && len(f.Blocks) > 0 && want[f.Name()] == "" {
+					scan(f, depth+1)
+				}
+			})
+		}
+		scan(fn, 0)
 		good := len(called) > 0
 		for _, x := range called {
 			if x != want[name] {
